@@ -6,6 +6,19 @@ import DimodProofs.LpNum
 import DimodProofs.LpDec
 import DimodProofs.LpClosed
 import DimodProofs.LpReader
+import DimodProofs.LpCppLex
+import DimodProofs.LpCppText
+import DimodProofs.LpFamily0
+import DimodProofs.LpFamily1
+import DimodProofs.LpFamily2
+import DimodProofs.LpFamily3
+import DimodProofs.LpFamily4
+import DimodProofs.LpFamily5
+import DimodProofs.LpFamily6
+import DimodProofs.LpFamily7
+import DimodProofs.LpMalformed0
+import DimodProofs.LpMalformed1
+import DimodProofs.LpMalformed2
 
 /-! # C12 — LP text round trip preserves the constrained model or is refused
 
@@ -249,7 +262,14 @@ example : validLabel (.str "To") = true ∧ validLabel (.str "that") = true ∧ 
     objective sections, a missing right-hand side) is refused by the reader model; the harness checks on every run
     that `dimod.lp.loads` raises on the same list. -/
 theorem cpp_reader_refuses_malformed : ∀ t ∈ LpCpp.malformedTexts, LpCpp.loads t = .error .refused := by
-  decide +kernel
+  -- evaluated by the kernel in three parallel modules (`DimodProofs/LpMalformed{0,1,2}.lean`)
+  have hsplit : LpCpp.malformedTexts = LpCpp.malformedPart 0 ++ LpCpp.malformedPart 1 ++ LpCpp.malformedPart 2 := by decide +kernel
+  intro t ht
+  rw [hsplit, List.mem_append, List.mem_append] at ht
+  rcases ht with (h | h) | h
+  · exact LpCpp.malformed_part_0 t h
+  · exact LpCpp.malformed_part_1 t h
+  · exact LpCpp.malformed_part_2 t h
 
 /-- `model_to_cqm` refuses semi-continuous and semi-integer variables whatever their bounds -/
 theorem cpp_reader_refuses_semi (v : LpCpp.CVar) (h : v.type = .semicont ∨ v.type = .semiint) :
@@ -266,19 +286,43 @@ theorem cpp_reader_refuses_semi (v : LpCpp.CVar) (h : v.type = .semicont ∨ v.t
     of the harness).  Two models per theorem for elaboration time. -/
 theorem cpp_reader_roundtrip_family_a_partial :
     ∀ m ∈ LpCpp.familyPick 0, LpCpp.numsDouble m = true ∧ (Lp.dumps m).toOption.isSome = true ∧ LpCpp.roundTripOK m = true := by
-  decide +kernel
+  -- the two models are evaluated by the kernel in their own modules (`DimodProofs/LpFamily0.lean`, `LpFamily1.lean`)
+  have hsplit : LpCpp.familyPick 0 = LpCpp.familyOne 0 ++ LpCpp.familyOne 1 := by decide +kernel
+  intro m hm
+  rw [hsplit, List.mem_append] at hm
+  rcases hm with h | h
+  · exact LpCpp.famOK_spec m (LpCpp.family_member_0 m h)
+  · exact LpCpp.famOK_spec m (LpCpp.family_member_1 m h)
 
 theorem cpp_reader_roundtrip_family_b_partial :
     ∀ m ∈ LpCpp.familyPick 1, LpCpp.numsDouble m = true ∧ (Lp.dumps m).toOption.isSome = true ∧ LpCpp.roundTripOK m = true := by
-  decide +kernel
+  -- the two models are evaluated by the kernel in their own modules (`DimodProofs/LpFamily2.lean`, `LpFamily3.lean`)
+  have hsplit : LpCpp.familyPick 1 = LpCpp.familyOne 4 ++ LpCpp.familyOne 5 := by decide +kernel
+  intro m hm
+  rw [hsplit, List.mem_append] at hm
+  rcases hm with h | h
+  · exact LpCpp.famOK_spec m (LpCpp.family_member_4 m h)
+  · exact LpCpp.famOK_spec m (LpCpp.family_member_5 m h)
 
 theorem cpp_reader_roundtrip_family_c_partial :
     ∀ m ∈ LpCpp.familyPick 2, LpCpp.numsDouble m = true ∧ (Lp.dumps m).toOption.isSome = true ∧ LpCpp.roundTripOK m = true := by
-  decide +kernel
+  -- the two models are evaluated by the kernel in their own modules (`DimodProofs/LpFamily4.lean`, `LpFamily5.lean`)
+  have hsplit : LpCpp.familyPick 2 = LpCpp.familyOne 14 ++ LpCpp.familyOne 15 := by decide +kernel
+  intro m hm
+  rw [hsplit, List.mem_append] at hm
+  rcases hm with h | h
+  · exact LpCpp.famOK_spec m (LpCpp.family_member_14 m h)
+  · exact LpCpp.famOK_spec m (LpCpp.family_member_15 m h)
 
 theorem cpp_reader_roundtrip_family_d_partial :
     ∀ m ∈ LpCpp.familyPick 3, LpCpp.numsDouble m = true ∧ (Lp.dumps m).toOption.isSome = true ∧ LpCpp.roundTripOK m = true := by
-  decide +kernel
+  -- the two models are evaluated by the kernel in their own modules (`DimodProofs/LpFamily6.lean`, `LpFamily7.lean`)
+  have hsplit : LpCpp.familyPick 3 = LpCpp.familyOne 22 ++ LpCpp.familyOne 23 := by decide +kernel
+  intro m hm
+  rw [hsplit, List.mem_append] at hm
+  rcases hm with h | h
+  · exact LpCpp.famOK_spec m (LpCpp.family_member_22 m h)
+  · exact LpCpp.famOK_spec m (LpCpp.family_member_23 m h)
 
 /-- the picks are not vacuous: two models each -/
 example : (List.range 4).map (fun i => (LpCpp.familyPick i).length) = [2, 2, 2, 2] := by decide +kernel
@@ -297,5 +341,178 @@ example :
              ⟨[(.str "x", -2), (.str "y", 1)], [(.str "x", .str "y", -2), (.str "y", .str "y", -1)], -3⟩,
              [⟨.str "c1", ⟨[(.str "x", 1), (.str "y", 1)], [], 0⟩, .ge, 1, false⟩]⟩ := by
   decide +kernel
+
+/-! ## round 8 — the lexical step of the general round trip through the C++ reader model
+
+The route to `∀ m, LpCpp.loads (Lp.dumps m) = normCqm m` (notes/r7d-r7.md) starts at the characters: these theorems are that
+first step at full generality (every label `_validate_label` accepts, every integral number, any continuation of the line,
+any fuel), proved over the generated tables (`LABEL_VALID_CHARS`, `LABEL_INVALID_FIRST_CHARS`, `LABEL_INVALID_PREFIXES` of
+`dimod/lp.py`; the identifier terminators and the single-character switch of `reader.cpp`).  The later steps
+(`procToks` on the writer's token shapes — whose label half is `valid_labels_form_no_reader_keyword` —, `splitToks`, the
+section parsers, `toCqm`) are still established by kernel evaluation on the family and by the correspondence run only. -/
+
+open LpCpp in
+/-- **every valid label is read by the C++ tokenizer as one identifier with exactly that text**: for every string
+    `_validate_label` accepts (`To`, `e`-less first characters, up to 255 characters, …), followed by the end of the line
+    or by a character that ends an identifier (the writer puts a blank, `:` or a newline there), `readnexttoken` — `strtod`
+    first, then the identifier rule — produces the token `str s` and continues with the rest of the line.  In particular
+    `strtod` converts no prefix of a valid label: this is what the writer's invalid first characters (digits, `.`, `e`, `E`)
+    and invalid prefixes (`inf`, `nan`) are there for. -/
+theorem cpp_lexer_reads_valid_label (s : String) (hs : validLabel (.str s) = true) (rest : List Char) (hr : Stops rest)
+    (fuel : Nat) : lexLine (fuel + 1) (s.toList ++ rest) = (lexLine fuel rest).map (Raw.str s :: ·) :=
+  lexLine_label s hs rest hr fuel
+
+open LpCpp in
+/-- **`strtod` on the digits the writer prints for a natural number**: all of them are consumed (no `0x`, no exponent, no
+    fraction is seen in what follows a stop character) and the value is the binary64 nearest to the number -/
+theorem cpp_strtod_reads_natural (n : Nat) (rest : List Char) (hr : Stops rest) :
+    strtod ((showNat n).toList ++ rest) = .ok (some (roundDouble (n : Rat), (showNat n).toList.length)) := by
+  simp only [showNat, String.toList_ofList]
+  exact strtod_natDigits n rest hr
+
+open LpCpp in
+/-- **an integral coefficient is read by the C++ tokenizer as one constant token with its exact magnitude**: `_abs(bias)`
+    of an integral bias that is a binary64 value (every bias of a real model is) is one `cons` token whose value is
+    `|bias|` — the sign is a token of its own in the writer's layout (`+ 3 x`, `- 3 x`). -/
+theorem cpp_lexer_reads_integral_coefficient (b : Rat) (hb : b.den = 1) (hd : isDouble (absQ b) = true) (rest : List Char)
+    (hr : Stops rest) (fuel : Nat) :
+    lexLine (fuel + 1) ((showAbs b).toList ++ rest) = (lexLine fuel rest).map (Raw.cons (.fin (absQ b)) :: ·) := by
+  have ha : (absQ b).den = 1 := by unfold absQ; split <;> simp [hb]
+  have h0 : 0 ≤ absQ b := by unfold absQ; split <;> grind
+  have hs : showAbs b = showNat (absQ b).num.toNat := by
+    have : (if b < 0 then -b else b) = absQ b := rfl
+    simp only [showAbs, this, ha, if_true]
+  have hn : (((absQ b).num.toNat : Nat) : Rat) = absQ b := natCast_of_den_one _ ha h0
+  rw [hs]
+  simp only [showNat, String.toList_ofList]
+  rw [lexLine_natDigits _ rest hr fuel, hn]
+  simp only [isDouble, decide_eq_true_eq] at hd
+  rw [hd]
+
+open LpCpp in
+/-- **every coefficient the writer prints is read by the C++ tokenizer as one constant token with its exact magnitude**:
+    `_abs(bias)` — `repr(abs(int(bias)))` for an integral bias, the positional `repr(abs(float(bias)))` otherwise — of a
+    bias with a terminating decimal expansion (≤ 60 places: every dyadic rational up to 2⁻⁶⁰) that is a binary64 value
+    (every bias of a real model is both) is one `cons` token of value `|bias|`: `strtod` consumes the integer part, the
+    point and all fraction digits, sees no exponent, no `0x`, no `inf`/`nan`, and its correctly rounded value is the
+    number itself.  Exponent notation (`repr` of magnitudes ≥ 1e16 or < 1e-4) is outside the writer model. -/
+theorem cpp_lexer_reads_coefficient (b : Rat) (hd : Dec60 b) (hdb : isDouble (absQ b) = true) (rest : List Char)
+    (hr : Stops rest) (fuel : Nat) :
+    lexLine (fuel + 1) ((showAbs b).toList ++ rest) = (lexLine fuel rest).map (Raw.cons (.fin (absQ b)) :: ·) := by
+  by_cases hi : b.den = 1
+  · exact cpp_lexer_reads_integral_coefficient b hi hdb rest hr fuel
+  · have hda : Dec60 (absQ b) := by unfold absQ; split; exact dec60_neg b hd; exact hd
+    have h0 : 0 ≤ absQ b := by unfold absQ; split <;> grind
+    have ha : ¬ (absQ b).den = 1 := by unfold absQ; split <;> simp [hi]
+    have hs : showAbs b = showPosDecimal (absQ b) := by
+      have : (if b < 0 then -b else b) = absQ b := rfl
+      simp only [showAbs, this, ha, if_false]
+    simp only [isDouble, decide_eq_true_eq] at hdb
+    rw [hs, lexLine_showPosDecimal _ h0 hda rest hr fuel, hdb]
+
+open LpCpp in
+/-- **every right-hand side and bound the writer prints is read back exactly**: `repr(float(x))` of a terminating
+    decimal that is a binary64 value, other than the two REAL limits `±1e+30` (printed in exponent notation; their
+    reading is evaluated in `cpp_reader_roundtrip_family_*_partial`), is the token `cons x` when `x ≥ 0` and the two
+    tokens `minus`, `cons (-x)` when `x < 0` (`processtokens` then folds the sign into the constant). -/
+theorem cpp_lexer_reads_rhs_and_bounds (q : Rat) (hd : Dec60 q) (hdb : isDouble (absQ q) = true)
+    (hne : q ≠ realMax ∧ q ≠ -realMax) (rest : List Char) (hr : Stops rest) (fuel : Nat) :
+    lexLine (fuel + 2) ((showFloat q).toList ++ rest) =
+      if q < 0 then (lexLine fuel rest).map (fun ts => Raw.minus :: Raw.cons (.fin (-q)) :: ts)
+      else (lexLine (fuel + 1) rest).map (Raw.cons (.fin q) :: ·) := by
+  simp only [isDouble, decide_eq_true_eq] at hdb
+  unfold showFloat
+  rw [if_neg hne.1, if_neg hne.2]
+  by_cases h3 : q < 0
+  · have ha : absQ q = -q := by simp [absQ, h3]
+    rw [ha] at hdb
+    simp only [h3, if_true]
+    have hl : ("-" ++ showPosDecimal (-q)).toList ++ rest = '-' :: ((showPosDecimal (-q)).toList ++ rest) := by
+      rw [String.toList_append]; rfl
+    rw [hl, lexLine]
+    have hm : singleTok '-' = some Raw.minus := by decide
+    simp only [hm, show ¬ ('-' = '\\' ∨ '-' = ';' ∨ '-' = '\n') by decide, show ¬ ('-' = ' ' ∨ '-' = '\t') by decide,
+      show ¬ ('-' = Char.ofNat 0) by decide, if_false]
+    rw [lexLine_showPosDecimal _ (by grind) (dec60_neg q hd) rest hr fuel, hdb]
+    cases lexLine fuel rest <;> rfl
+  · have ha : absQ q = q := by simp [absQ, h3]
+    rw [ha] at hdb
+    simp only [h3, if_false]
+    rw [lexLine_showPosDecimal _ (by grind) hd rest hr (fuel + 1), hdb]
+
+/-- the hypotheses are met: the writer's continuations (blank, colon, newline, end of line) are stops -/
+example : LpCpp.Stops [' ', '<', '='] ∧ LpCpp.Stops [':', ' '] ∧ LpCpp.Stops ['\n'] ∧ LpCpp.Stops [] :=
+  ⟨Or.inr ⟨_, _, rfl, by decide +kernel⟩, Or.inr ⟨_, _, rfl, by decide +kernel⟩, Or.inr ⟨_, _, rfl, by decide +kernel⟩, Or.inl rfl⟩
+
+/-- … and the statements compute on a line of a written file (label `To`, a label starting with `Inf` refused: `I.a`) -/
+example :
+    LpCpp.isDouble (absQ (-9007199254740991)) = true ∧ validLabel (.str "Inf.a") = false ∧
+    LpCpp.lexLine 40 " To: + 12 x_1 - 9007199254740991 I.a >= -3".toList =
+      .ok [.str "To", .colon, .plus, .cons (.fin 12), .str "x_1", .minus, .cons (.fin 9007199254740991), .str "I.a",
+           .greater, .equal, .minus, .cons (.fin 3)] := by
+  decide +kernel
+
+/-! ### the whole lexical layer: from the model to the raw tokens of the C++ reader -/
+
+open LpCpp in
+/-- **every write of `dump` is read by the C++ tokenizer as that write's raw tokens, in any context**: the text of a
+    write (without its final newline) is a newline-free piece that `readnexttoken` turns into `rawOf t` whatever text
+    follows (for `" name"` and `End`: provided a blank / newline / the end of the file follows, which the next write of
+    `dump` supplies) — for all labels `_validate_label` accepts and all numbers that are terminating decimals and binary64
+    values, `1e+30` included. -/
+theorem cpp_lexer_reads_every_write (t : Tok) (h : TokCppOK t) : ∀ a ∈ tokAtoms t, a.ok := tokAtoms_ok t h
+
+open LpCpp in
+/-- … and the pieces are the write: their text is the text written, their tokens are `rawOf t` -/
+theorem cpp_lexer_write_pieces (t : Tok) :
+    atomsText (tokAtoms t) = t.render.toList ∧ (tokAtoms t).flatMap Atom.raw = rawOf t :=
+  ⟨tokAtoms_text t, tokAtoms_raw t⟩
+
+open LpCpp in
+/-- **the C++ reader's tokenizer on the text of `lp.dumps`, for every model** (the first of the four stages of
+    `LpCpp.loads`; `_partial` with respect to the general theorem `LpCpp.loads (Lp.dumps m) = normCqm m`, whose later
+    stages `processtokens` / `splittokens` / section parsers / `model_to_cqm` are proved only per label
+    (`cpp_processtokens_keeps_valid_label`, `valid_labels_form_no_reader_keyword`) and evaluated on the family):
+    for every model the writer accepts — any number of variables, terms and constraints, labels of any accepted form
+    (`To` included), every line break `_WidthLimitedFile` inserts — whose numbers are terminating decimals (≤ 60 places)
+    and binary64 values and whose expressions mention only its own variables, `Reader::readnexttoken` over the
+    `std::getline` lines of the written text (comments, `\r` stripping, `strtod` before the identifier rule) yields
+    exactly the raw tokens of the writes, in order: no label is split or taken for a number, no number is split, rounded
+    or glued to its neighbour, no line break changes a token. -/
+theorem cpp_reader_tokenizes_every_dump_partial (m : LCqm) (ts : List Tok) (text : String) (h : dumpToks m = .ok ts)
+    (ht : dumps m = .ok text) (hn : CppNumsOK m) (hl : ScopedOK m) :
+    rawTokens text = .ok (ts.flatMap rawOf) :=
+  rawTokens_dumps m ts text h ht hn hl
+
+open LpCpp in
+/-- **`processtokens` keeps every valid label a name, whatever follows**: a label `_validate_label` accepts is never
+    turned into a section keyword — alone, joined with the next word (`subject to`) or with `-` and the word after it
+    (`semi-continuous`) — nor into `free` or an infinity; it becomes a constraint identifier exactly when one colon
+    follows and a variable identifier otherwise (two colons: the SOS syntax, outside the writer's grammar). -/
+theorem cpp_processtokens_keeps_valid_label (s : String) (hs : validLabel (.str s) = true) (rest : List Raw) (fuel : Nat)
+    (hcc : ∀ r, rest ≠ .colon :: .colon :: r) :
+    procToks (fuel + 1) (.str s :: rest) =
+      match rest with
+      | .colon :: r => (procToks fuel r).map (PTok.conid s :: ·)
+      | _ => (procToks fuel rest).map (PTok.varid s :: ·) :=
+  procToks_label s hs rest fuel hcc
+
+/-- a model with a variable and a constraint called `To`, a fraction, a 16-digit integer, default REAL bounds (`1e+30`) -/
+def exModelR8 : LCqm :=
+  ⟨[⟨.str "x", .integer, 0, 5⟩, ⟨.str "To", .binary, 0, 1⟩, ⟨.str "r", .real, -5/2, realMax⟩],
+   ⟨[(.str "x", -1/2), (.str "r", 9007199254740991)], [(.str "x", .str "To", 3/2)], 1⟩,
+   [⟨.str "To", ⟨[(.str "To", 1), (.str "x", 2)], [], 1/4⟩, .ge, 1, false⟩]⟩
+
+open LpCpp in
+/-- the hypotheses of `cpp_reader_tokenizes_every_dump_partial` are met by a model the writer accepts -/
+example : CppNumsOK exModelR8 ∧ ScopedOK exModelR8 ∧ (dumps exModelR8).toOption.isSome = true := by
+  refine ⟨⟨?_, ?_, ?_, ?_, ?_, ?_, ?_⟩, ⟨?_, ?_, ?_, ?_⟩, by decide +kernel⟩
+  all_goals simp only [exModelR8, List.mem_cons, List.mem_nil_iff, or_false, forall_eq_or_imp, forall_eq]
+  all_goals first
+    | exact numOK_of_dyadic _ 2 (by decide) (by decide +kernel) (by decide +kernel)
+    | (refine ⟨?_, ?_⟩ <;> exact numOK_of_dyadic _ 2 (by decide) (by decide +kernel) (by decide +kernel))
+    | (intro q hq; exact absurd hq id)
+    | (refine ⟨⟨?_, ?_⟩, ⟨?_, ?_⟩, ?_, ?_⟩ <;> exact numOK_of_dyadic _ 2 (by decide) (by decide +kernel) (by decide +kernel))
+    | simp
 
 end C12
